@@ -51,7 +51,10 @@ pub fn parse_local_segments(local: &str) -> Vec<LocalSegment> {
         .split('.')
         .map(|part| {
             if !part.is_empty() && part.chars().all(|c| c.is_ascii_digit()) {
-                LocalSegment::new_uint(part.parse().unwrap_or(0))
+                // digits beyond u32 are kept as a string segment instead of becoming 0
+                part.parse()
+                    .map(LocalSegment::new_uint)
+                    .unwrap_or_else(|_| LocalSegment::try_new_str(part.to_string()).unwrap())
             } else {
                 LocalSegment::try_new_str(part.to_string()).unwrap()
             }
@@ -67,39 +70,52 @@ impl FromStr for PEP440 {
             .captures(s)
             .ok_or_else(|| ZervError::InvalidVersion(format!("Invalid PEP440 version: {s}")))?;
 
-        let release = captures
-            .name("release")
-            .map(|m| {
-                m.as_str()
-                    .split('.')
-                    .map(|x| x.parse().unwrap_or(0))
-                    .collect()
+        // a number that does not fit in u32 is rejected, never replaced by another number
+        let number = |text: &str| -> Result<u32, ZervError> {
+            text.parse().map_err(|_| {
+                ZervError::InvalidVersion(format!("PEP440 number out of range in {s}: {text}"))
             })
-            .unwrap_or_else(|| vec![0]);
+        };
+
+        let release = match captures.name("release") {
+            Some(m) => m
+                .as_str()
+                .split('.')
+                .map(number)
+                .collect::<Result<Vec<u32>, _>>()?,
+            None => vec![0],
+        };
 
         let mut version = PEP440::new(release);
 
         if let Some(epoch_match) = captures.name("epoch") {
-            let epoch = epoch_match.as_str().parse().unwrap_or(0);
+            let epoch = number(epoch_match.as_str())?;
             version = version.with_epoch(epoch);
         }
 
         if let Some(pre_l) = captures.name("pre_l") {
             let label = PreReleaseLabel::from_str_or_alpha(pre_l.as_str());
-            let number = captures.name("pre_n").and_then(|m| m.as_str().parse().ok());
-            version = version.with_pre_release(label, number);
+            let pre_number = captures
+                .name("pre_n")
+                .map(|m| number(m.as_str()))
+                .transpose()?;
+            version = version.with_pre_release(label, pre_number);
         }
 
         if captures.name("post").is_some() {
             let post_number = captures
                 .name("post_n1")
                 .or_else(|| captures.name("post_n2"))
-                .and_then(|m| m.as_str().parse().ok());
+                .map(|m| number(m.as_str()))
+                .transpose()?;
             version = version.with_post(post_number);
         }
 
         if captures.name("dev").is_some() {
-            let dev_number = captures.name("dev_n").and_then(|m| m.as_str().parse().ok());
+            let dev_number = captures
+                .name("dev_n")
+                .map(|m| number(m.as_str()))
+                .transpose()?;
             version = version.with_dev(dev_number);
         }
 
